@@ -209,6 +209,19 @@ func (env *SpecEnv) eval(x *SExpr) *SV {
 		return env.evalCall(x)
 	case "forall", "exists":
 		return env.evalQuant(x)
+	case "is":
+		a := env.eval(x.Args[0])
+		t := e.resolveType(x.TypeX, env.pkg)
+		if a == nil || t == nil {
+			env.errorf("cannot resolve type in 'is %s'", x.TypeX)
+			return boolSV("false")
+		}
+		tof := e.c.fun("typeof", []Sort{SInt}, SInt)
+		fx := env.fx
+		if fx == nil {
+			fx = &FnExec{e: e}
+		}
+		return boolSV(and(not(eq(a.V.L[0], "0")), eq(app(tof, a.V.L[0]), fx.typeTag(t))))
 	case "tassert":
 		a := env.eval(x.Args[0])
 		t := e.resolveType(x.TypeX, env.pkg)
@@ -761,6 +774,8 @@ func (env *SpecEnv) evalQuant(x *SExpr) *SV {
 		}
 		n = n.with(b.Name, sv)
 	}
+	e.c.inQuant++
+	defer func() { e.c.inQuant-- }()
 	body := n.eval(x.Args[0])
 	if body == nil || len(body.V.L) != 1 {
 		return boolSV("false")
@@ -942,6 +957,39 @@ func (env *SpecEnv) evalCall(x *SExpr) *SV {
 				fx = &FnExec{e: e}
 			}
 			return mathSV("(" + fx.pow2Fun() + " " + a.V.L[0] + ")")
+		}
+		// uninterpreted spec function
+		if uf, ok := e.w.spec.UFs[fnx.Name]; ok {
+			var sorts []Sort
+			var terms []string
+			for i, at := range uf.Args {
+				t := e.resolveType(at, uf.Pkg)
+				so := SInt
+				if t != nil {
+					so = e.fl.leaves(t)[0].Sort
+				}
+				sorts = append(sorts, so)
+				if i < len(args) {
+					av := env.eval(args[i])
+					if av == nil {
+						return nil
+					}
+					terms = append(terms, av.V.L[0])
+				}
+			}
+			rt := e.resolveType(uf.Res, uf.Pkg)
+			rs := SInt
+			var rT types.Type = tMath
+			if rt != nil && !(uf.Res.Name == "int" && uf.Res.Pkg == "") {
+				rs = e.fl.leaves(rt)[0].Sort
+				rT = rt
+			}
+			f := e.c.fun("uf_"+uf.Name, sorts, rs)
+			sv := &SV{V: scalar(app(f, terms...)), T: rT}
+			if rT == tMath {
+				sv.Math = true
+			}
+			return sv
 		}
 		// predicate
 		if pd, ok := e.w.spec.Preds[fnx.Name]; ok {
